@@ -34,9 +34,13 @@ def main():
     ap.add_argument("--fingerprints", default=None, help="write {run index: fingerprint} JSON here")
     args = ap.parse_args()
 
-    if os.environ.get("PYTHONHASHSEED") is None:
-        env = dict(os.environ, PYTHONHASHSEED="0", PYTHONDONTWRITEBYTECODE="1",
-                   OMP_NUM_THREADS="1", OPENBLAS_NUM_THREADS="1", MKL_NUM_THREADS="1")
+    # one BLAS thread (bit-stable linear algebra, fork-safe) and a fixed string-hash salt, whatever the caller's
+    # environment says; a PYTHONHASHSEED chosen by the caller is kept
+    want = {"PYTHONDONTWRITEBYTECODE": "1", "OMP_NUM_THREADS": "1", "OPENBLAS_NUM_THREADS": "1",
+            "MKL_NUM_THREADS": "1"}
+    if os.environ.get("PYTHONHASHSEED") is None or any(os.environ.get(k) != v for k, v in want.items()):
+        env = dict(os.environ, **want)
+        env.setdefault("PYTHONHASHSEED", "0")
         os.execve(sys.executable, [sys.executable, "-B"] + sys.argv, env)
 
     if args.seed is None:
